@@ -124,3 +124,10 @@ prop("C18",
      trusted_base=["z3 5.1.0", "itertools.product contract", "induction on the refinement history (schema)"],
      not_decided=["VOGP_AD.evaluate_refine's own body (the parent-for-children swap in S / P) is used through an assumed contract",
                   "refine_design called directly on a node at max depth (outside the precondition the library's only call site establishes)"])
+
+prop("C11",
+     level_text="line_seg_pt_intersect_at_dim, is_pt_in_extended_polytope and RectangularConfidenceRegion.check_dominates are executed symbolically (state merging keeps the path count linear): a True answer implies every vertex of the first rectangle dominates some point of the second (soundness, any cone), and for 2x2 non-singular cones the converse holds in exact real arithmetic (completeness); the convex lift from vertices to all points is a lemma.",
+     mode="unrolled: m = 2 (K = 2 quick, K = 3 thorough), polytopes of 2-4 vertices; all coordinates symbolic",
+     trusted_base=["z3 5.1.0", "cvc5 1.0.3", "state merging / guarded arrays of the PYVC engine"],
+     not_decided=["behaviour within rounding distance of the boundary ('non-negligible margin')", "m = 3 soundness (thorough tier only, may be left open by the solvers)",
+                  "division by zero inside line_seg_pt_intersect_at_dim is an unspecified real (IEEE gives nan/inf, for which all comparisons are False)"])
